@@ -122,6 +122,14 @@ func (d *FileSystemDirectory) Persist(kind string, id uint64, w WriterTo, closeC
 		_ = os.Remove(path)
 	}
 
+	// a file of this name may be left over from an earlier attempt; now that
+	// the exclusive lock is held, drop its content so no stale tail survives
+	err = f.File().Truncate(0)
+	if err != nil {
+		cleanup()
+		return err
+	}
+
 	_, err = w.WriteTo(f.File(), closeCh)
 	if err != nil {
 		cleanup()
